@@ -92,7 +92,8 @@ def check_bph_branches(chk, fi: FuncInfo, m: c03e.PairsModel) -> None:
         def entered(p: SX.Path) -> bool:
             if tag == "bph":
                 return _name_in(p, lst) is True and _unused(p) is True
-            return _name_in(p, lst) is True and _unused(p) is True and _name_in(p, "PHOSPHATE_ACCEPTORS") is not True
+            # base-ribose comes second: the contact must have been found *not* to involve a phosphate acceptor
+            return _name_in(p, lst) is True and _unused(p) is True and _name_in(p, "PHOSPHATE_ACCEPTORS") is False
 
         n_entered = 0
         falls: List[SX.Path] = []
@@ -252,6 +253,7 @@ def check_bph_table(chk, fi: FuncInfo, sp: Dict[str, Any], fold) -> None:
         table, allp = classification_table(chk, fi)
     except SX.TooManyPaths as ex:
         raise NotReadable(str(ex))
+    chk.robust |= {"bph-class-table", "bph-split", "bph-split-atoms"}  # evaluated on the current code, whatever its shape
     for b, row in table.items():
         for d, got in row.items():
             if d == "O2'":
@@ -441,14 +443,15 @@ def order_key(fi: FuncInfo) -> Optional[List[Tuple[str, str]]]:
     if len(rets) != 1:
         return None
     v = rets[0].value
-    if not (isinstance(v, ast.Compare) and len(v.ops) == 1 and isinstance(v.ops[0], ast.Lt) and isinstance(v.left, ast.Tuple) and isinstance(v.comparators[0], ast.Tuple) and len(v.left.elts) == len(v.comparators[0].elts)):
+    if not (isinstance(v, ast.Compare) and len(v.ops) == 1 and isinstance(v.ops[0], (ast.Lt, ast.Gt)) and isinstance(v.left, ast.Tuple) and isinstance(v.comparators[0], ast.Tuple) and len(v.left.elts) == len(v.comparators[0].elts)):
         return None
     params = [a.arg for a in fi.node.args.args]
     if len(params) != 2:
         return None
     me, other = params
+    mine, theirs = (v.left, v.comparators[0]) if isinstance(v.ops[0], ast.Lt) else (v.comparators[0], v.left)  # key(other) > key(self)
     out = []
-    for a, b in zip(v.left.elts, v.comparators[0].elts):
+    for a, b in zip(mine.elts, theirs.elts):
         ta = norm(c03e._rename(a, me, "X"))
         tb = norm(c03e._rename(b, other, "X"))
         if ta != tb:
